@@ -83,7 +83,7 @@ def callThisClash : Node → Bool
 
 /-- nodes the operation visitor rewrites -/
 def inertTNode : Node → Bool
-  | .bin .. | .assign .. | .tpl .. | .call .. | .optChain .. | .arrow .. => false
+  | .bin .. | .assign .. | .tpl .. | .call .. | .optChain .. | .arrow .. | .block .. => false
   | _ => true
 
 /-- nothing in the tree is rewritten by the operation visitor (the quasis of a template literal) -/
